@@ -76,3 +76,5 @@ func verifC11(rotations int) {
 func VerifC11Bootstrap() { verifC11(0) }
 func VerifC11Rotate1()   { verifC11(1) }
 func VerifC11Rotate2()   { verifC11(2) }
+
+func VerifC11Rotate3() { verifC11(3) }
